@@ -37,6 +37,7 @@ type Options struct {
 	// are partitioned by a hash of the first SliceDepth choices; this
 	// explorer continues only below prefixes with hash % SliceCount == SliceIndex.
 	SliceDepth, SliceIndex, SliceCount int
+	DefaultSchedule                    bool // never branch on thread choices (only data choices are enumerated)
 	ExploreAll                         bool // explored window open from the start
 	Trace                              bool // keep a per-execution op log
 }
@@ -120,7 +121,7 @@ func (ex *Explorer) choose(enabled uint32) int {
 	if s.cur != nil && enabled&(1<<uint(s.cur.id)) != 0 {
 		cur = s.cur.id
 	}
-	if !s.exploring || ex.opts.Mode == ModeSingle {
+	if !s.exploring || ex.opts.Mode == ModeSingle || ex.opts.DefaultSchedule {
 		if cur >= 0 {
 			return cur
 		}
